@@ -519,6 +519,10 @@ class Literal(Operable):
     def __repr__(self):
         return repr(self.value)
 
+    def __hash__(self):
+        # DSL equality goes by hash and distinct values may share theirs (ie hash(-1) == hash(-2) in CPython)
+        return super().__hash__() ^ hash(repr(self.value))
+
     def accept(self, visitor: 'dsl.Feature.Visitor') -> None:
         """Visitor acceptor.
 
